@@ -328,6 +328,22 @@ func vkConfigs(thorough, dnssec bool) []vkCfg {
 			}
 		}
 	}
+	// A DS RRset the validator cannot use (unsupported digest type / DNSKEY algorithm only): the child is insecure, the
+	// RRset is nevertheless what the parent granted — its TTL bounds the lease exactly as a usable one does. Appended
+	// AFTER the 16 basic configurations so that their shard assignment stays as it was.
+	if !thorough {
+		add(t(40, 40, 40), t(40, 6, 40), "unsupds", false)
+		add(t(40, 40, 40), t(40, 2, 40), "unsupds", false)
+		add(t(40, 40, 40), t(40, 6, 40), "unsupds", true)
+		return out
+	}
+	for _, pf := range []bool{false, true} {
+		for _, b := range []string{"unsupds", "unsupalg"} {
+			for _, s := range sets[:4] {
+				add(s.ns, s.ds, b, pf)
+			}
+		}
+	}
 	return out
 }
 
